@@ -525,6 +525,90 @@ example :
     (.cons (.node ⟨6, 4, 23, 24⟩ .py .nil) .nil : Calls (Node Nat)) := by
   simp [pruneCalls, pruneCall]
 
+/-! ### names come from the code object of the event (Model/PyHook §6) -/
+
+/-- C19, names: for every history of code objects — created, freed, their addresses handed out
+    again to other code objects any number of times (functions made by exec()/compile(), class
+    bodies, the top-level code of imported modules) — the symbol under which an event is recorded
+    carries the name of the code object that lives at the event's address **at that event**; every
+    such symbol is the final table's entry for that name, and two events are recorded under the
+    same address exactly when their current names are equal (never because their code objects have,
+    or had, the same address). -/
+theorem c19_name_is_current_code_object (cmp : β → β → Ordering) (hc : CmpEq cmp) (isLib : β → Bool)
+    (evs : List (CEv β)) :
+    (runCode cmp isLib .leaf Shm.empty evs).map (Option.map Sym.name) = evs.map (fun e => e.heap e.code) ∧
+    (∀ s, some s ∈ runCode cmp isLib .leaf Shm.empty evs →
+      (runCodeTab cmp isLib .leaf Shm.empty evs).1.find cmp s.name = some s) ∧
+    (∀ s1 s2, some s1 ∈ runCode cmp isLib .leaf Shm.empty evs → some s2 ∈ runCode cmp isLib .leaf Shm.empty evs →
+      (s1.addr = s2.addr ↔ s1.name = s2.name)) := by
+  have h0 := treeOk_leaf cmp isLib (Shm.empty : Shm β)
+  have hfin := runCode_final cmp hc isLib evs .leaf Shm.empty h0 shmOk_empty
+  refine ⟨runCode_names cmp hc isLib evs .leaf Shm.empty shmOk_empty h0, hfin, ?_⟩
+  intro s1 s2 h1 h2
+  have hok := runCodeTab_ok cmp hc isLib evs .leaf Shm.empty shmOk_empty h0
+  have f1 := hfin s1 h1
+  have f2 := hfin s2 h2
+  constructor
+  · intro e
+    obtain ⟨_, _, l1, hl1, ha1, _, hn1⟩ := hok.2 s1.name s1 f1
+    obtain ⟨_, _, l2, hl2, ha2, _, hn2⟩ := hok.2 s2.name s2 f2
+    have := line_addr_inj _ hok.1 l1 l2 hl1 hl2 (by rw [ha1, ha2, e])
+    rw [← hn1, ← hn2, this]
+  · intro e
+    rw [e] at f1
+    rw [f1] at f2
+    cases f2
+    rfl
+
+/-- non-vacuity: rule_0 (name 10) is compiled at address 500, called and dropped; rule_1 (name 11)
+    gets the same address; the module's top-level code (name 7) had it before both -/
+example :
+    let heap0 : CodeHeap Nat := fun a => if a = 500 then some 7 else if a = 600 then some 3 else none
+    let heap1 : CodeHeap Nat := fun a => if a = 500 then some 10 else if a = 600 then some 3 else none
+    let heap2 : CodeHeap Nat := fun a => if a = 500 then some 11 else if a = 600 then some 3 else none
+    (runCode compare (fun _ => false) .leaf Shm.empty
+      [⟨500, heap0⟩, ⟨600, heap0⟩, ⟨500, heap1⟩, ⟨600, heap1⟩, ⟨500, heap2⟩, ⟨700, heap2⟩, ⟨500, heap0⟩]).map
+        (Option.map fun s => (s.name, s.addr)) =
+      [some (7, 1), some (3, 2), some (10, 3), some (3, 2), some (11, 4), none, some (7, 1)] := by
+  decide
+
+/-! ### which directory is the program (Model/PyHook §7) -/
+
+/-- C19, library classification with the repaired launcher: however the script was started
+    (relative or absolute name, through symbolic links of any kind — `real` is arbitrary), a module
+    imported from the directory the launcher put in front of `sys.path` (a file below it, in a
+    package or not) is program code. -/
+theorem c19_sibling_modules_are_program_code (l : Launch) (rel : Path) (h : rel ≠ []) :
+    isProgramFile true l (sysPath0 true l ++ rel) = true := by
+  have hl : 0 < rel.length := List.length_pos_iff.mpr h
+  simp only [isProgramFile, underDir, mainDir, sysPath0, ↓reduceIte, isPrefixOf_append_self, Bool.true_and,
+    List.length_append, decide_eq_true_eq]
+  omega
+
+/-- … and the modules next to the script are looked up where the script really is -/
+theorem c19_sys_path_is_script_dir (l : Launch) : sysPath0 true l = (l.real l.abs).dropLast := rfl
+
+/-- `app/` holds the project, `link -> app`, `bin/tool -> ../app/main.py` -/
+def realW : Path → Path
+  | ["W", "link", f] => ["W", "app", f]
+  | ["W", "bin", "tool"] => ["W", "app", "main.py"]
+  | p => p
+
+/-- F-C19-SCRIPTDIR witness (the launcher as found): started as `link/main.py` the neighbour
+    `helper.py` is imported from W/link but the program's directory is W/app — its functions count as
+    library calls; started as `bin/tool` (a symbolic link to the script) the neighbours are looked up in
+    W/bin, where they are not; started by a plain name both agree -/
+theorem c19_prefix_scriptdir_witness :
+    let viaDir : Launch := { arg := ["link", "main.py"], isAbs := false, cwd := ["W"], real := realW }
+    let viaLink : Launch := { arg := ["bin", "tool"], isAbs := false, cwd := ["W"], real := realW }
+    let plain : Launch := { arg := ["app", "main.py"], isAbs := false, cwd := ["W"], real := realW }
+    isProgramFile false viaDir (sysPath0 false viaDir ++ ["helper.py"]) = false ∧
+    sysPath0 false viaLink = ["W", "bin"] ∧ (realW viaLink.abs).dropLast = ["W", "app"] ∧
+    isProgramFile false plain (sysPath0 false plain ++ ["pkg", "core.py"]) = true ∧
+    isProgramFile true viaDir (sysPath0 true viaDir ++ ["helper.py"]) = true ∧
+    sysPath0 true viaLink = ["W", "app"] := by
+  decide
+
 end EndToEnd
 
 end Uft.PyTrace
